@@ -835,6 +835,31 @@ func (e *Env) evalCall(n ECall) tv {
 			return v
 		}
 		return e.fail("%s: event has no %s", n.Fn, key)
+	case "evnth":
+		// evnth("pattern", n, "arg"|"res", k): operand of the n-th (0-based) matching event on this path
+		nameE, ok := n.Args[0].(EStr)
+		if !ok || len(n.Args) != 4 {
+			return e.fail("evnth(pattern, n, \"arg\"|\"res\", k)")
+		}
+		idx := atoi(n.Args[1].(EInt).V)
+		kind := n.Args[2].(EStr).V
+		k := atoi(n.Args[3].(EInt).V)
+		var found []Event
+		for _, ev := range e.trace {
+			if matchEvent(nameE.V, ev.Name) {
+				found = append(found, ev)
+			}
+		}
+		if idx >= len(found) {
+			return e.fail("evnth(%q, %d): only %d matching events on this path", nameE.V, idx, len(found))
+		}
+		ce := e.child()
+		c.bindEvent(ce, found[idx])
+		key := fmt.Sprintf("$%s%d", kind, k)
+		if v, ok := ce.vars[key]; ok {
+			return v
+		}
+		return e.fail("evnth: event has no %s", key)
 	case "evcount":
 		nameE, ok := n.Args[0].(EStr)
 		if !ok {
